@@ -4,6 +4,7 @@ import hashlib
 import itertools
 import json
 import math
+import contextlib
 import os
 import pathlib
 import shutil
@@ -342,3 +343,25 @@ def guard(fn, *args, **kwargs):
 
 def exc_text(e):
     return f"{type(e).__name__}: {str(e)[:200]}"
+
+
+@contextlib.contextmanager
+def process_tz(tz):
+    """run a block with the process time zone set to a POSIX TZ string (e.g. 'PST8', 'JST-9');
+    nothing a reader of UTC-stamped files returns may depend on it"""
+    import time
+
+    if not tz:
+        yield
+        return
+    old = os.environ.get("TZ")
+    os.environ["TZ"] = tz
+    time.tzset()
+    try:
+        yield
+    finally:
+        if old is None:
+            os.environ.pop("TZ", None)
+        else:
+            os.environ["TZ"] = old
+        time.tzset()
